@@ -20,6 +20,7 @@ structure St where
   slots : List (Nat × Bytes) := []
   exportB : Option Bytes := none
   part : Option WT := none
+  pbatch : Option (List StoreOp) := none    -- the batch of a Commit that has not been written yet
 
 def errStr : Err → String
   | .notFound => "notfound"
@@ -412,6 +413,20 @@ def step (s : St) (w : List String) : St × String :=
     let t2 := applyTo t1 ops
     let (t3, root) := rootHash Hh t2
     ({ s with t := t3, croot := root, cweight := t3.weight }, s!"ok r={hex root} w={t3.weight} {fmtEntry ops}")
+  | ["commitb", lvl] =>
+    -- Commit(lvl) alone: the batch is returned and kept, nothing is written
+    match s.pbatch with
+    | some _ => (s, "skip")
+    | none =>
+      let (t1, ops) := commit Hh s.t lvl.toInt!
+      ({ s with t := t1, pbatch := some ops }, "ok")
+  | ["wbatch"] =>
+    match s.pbatch with
+    | none => (s, "skip")
+    | some ops =>
+      let t2 := applyTo s.t ops
+      let (t3, root) := rootHash Hh t2
+      ({ s with t := t3, croot := root, cweight := t3.weight, pbatch := none }, s!"ok r={hex root} w={t3.weight} {fmtEntry ops}")
   | ["commit2", lvl] =>
     -- Commit(lvl), a second Commit(lvl) on the clean root, then both batches in call order
     let (t1, ops) := commit Hh s.t lvl.toInt!
